@@ -487,6 +487,43 @@ pub fn gen_program(rng: &mut Rng, nops: usize, focus: &str, p: &Profile) -> Vec<
     ops
 }
 
+/// C09: allocate up to `budget` bytes, drop every reference, force an exhaustive GC; repeat.
+fn gen_cycles(rng: &mut Rng, nops: usize, budget: usize, cap: usize) -> Vec<Op> {
+    let mut ops = Vec::new();
+    while ops.len() < nops {
+        let mut total = 0usize;
+        while total < budget {
+            let size = if rng.chance(1, 6) { rng.range(8193, cap.max(8200) as u64) as usize } else { rng.range(24, 2048) as usize };
+            if total + size > budget {
+                break;
+            }
+            total += size;
+            ops.push(Op::Alloc {
+                size,
+                align: *rng.pick(&[8usize, 8, 16]),
+                offset: 0,
+                sem: *rng.pick(&[SEM_DEFAULT, SEM_DEFAULT, SEM_DEFAULT, SEM_LOS, SEM_NONMOVING]),
+                nrefs: rng.below(6) as u16,
+                kind: 0,
+                root: RootRef { g: false, i: rng.below(16) as u16 },
+            });
+            if rng.chance(1, 3) {
+                ops.push(Op::Write {
+                    src: RootRef { g: false, i: rng.below(16) as u16 },
+                    field: rng.below(6) as u16,
+                    val: Some(RootRef { g: false, i: rng.below(16) as u16 }),
+                    mode: rng.below(2) as u8,
+                });
+            }
+        }
+        for i in 0..16u16 {
+            ops.push(Op::Drop { root: RootRef { g: false, i } });
+        }
+        ops.push(Op::Gc { force: true, exhaustive: true });
+    }
+    ops
+}
+
 pub fn gen_spec(seed: u64, focus: &str, tier: &str) -> RunSpec {
     let mut rng = Rng::new(seed ^ 0x5151_0000_0000_0000);
     let mut wl = rng.fork(1);
@@ -534,7 +571,7 @@ pub fn gen_spec(seed: u64, focus: &str, tier: &str) -> RunSpec {
         },
         stress_factor: if focus != "C12" && rng.chance(1, 3) { Some(*rng.pick(&[4096usize, 16384, 65536, 262144, 1 << 20])) } else { None },
         nursery: if rng.chance(1, 2) { Some((1 << 20, *rng.pick(&[1usize << 20, 2 << 20, 4 << 20]))) } else { None },
-        layout32: if focus == "C29" { true } else { rng.chance(1, 10) },
+        layout32: if focus == "C29" { true } else { rng.chance(1, 25) },
         no_finalizer: focus != "C06" && rng.chance(1, 20),
         no_reference_types: focus != "C06" && rng.chance(1, 20),
         full_heap_system_gc: rng.chance(1, 3),
@@ -601,6 +638,17 @@ pub fn gen_spec(seed: u64, focus: &str, tier: &str) -> RunSpec {
         cfg.stress_factor = None;
     }
     let mut programs: Vec<Vec<Op>> = (0..nmut).map(|_| gen_program(&mut wl, nops, focus, &prof)).collect();
+    if focus == "C09" && rng.chance(4, 5) {
+        cfg.reclaim_cycles = true;
+        cfg.heap_bytes = *rng.pick(&[4usize, 8, 16]) << 20;
+        cfg.dynamic_heap = None;
+        if let Some((lo, hi)) = cfg.nursery {
+            cfg.nursery = Some((lo.min(cfg.heap_bytes / 4), hi.min(cfg.heap_bytes / 4)));
+        }
+        let frac = *rng.pick(&[8usize, 6]);
+        let budget = cfg.heap_bytes / frac / nmut;
+        programs = (0..nmut).map(|_| gen_cycles(&mut wl, nops, budget, cfg.heap_bytes / 32)).collect();
+    }
     if !cfg.kf_probe {
         for p in programs.iter_mut() {
             for op in p.iter_mut() {
